@@ -39,6 +39,15 @@ theorem decodeBits_encode (b : BitsMsg) (hwf : b.WF) (hsz : (encodeBits b).lengt
   rw [List.append_nil] at h4
   rw [h4, decodeMsg_nil]
 
+theorem bitsI32OK_of_WF (b : BitsMsg) (h : b.WF) : bitsI32OK b = true := by
+  obtain ⟨_, hn, _, hr⟩ := h
+  simp [bitsI32OK, i32ok, hn, all_i32ok _ hr]
+
+theorem decodeBitsTop_encode (b : BitsMsg) (hwf : b.WF) (hsz : (encodeBits b).length < 2 ^ 64) :
+    decodeBits (encodeBits b) = .ok b := by
+  unfold decodeBits
+  rw [decodeBits_encode b hwf hsz, checkI32_ok _ _ (bitsI32OK_of_WF b hwf)]
+
 theorem protoSizeBits_eq (b : BitsMsg) : protoSizeBits b = (encodeBits b).length := by
   simp [protoSizeBits, encodeBits, encPackedF_length, encVarintF_length]
 
@@ -66,9 +75,9 @@ theorem decodeArray32Into_unknown (acc : Array32Msg) (bs : Bytes) (h : unknownOn
 
 
 set_option linter.unusedSimpArgs false in
-/-- Round trip of `array.Array32` through the proto3 wire format. -/
-theorem decodeArray32_encode (a : Array32Msg) (hwf : a.WF) (hnf : a.NF) (hsz : (encodeArray32 a).length < 2 ^ 64) :
-    decodeArray32 (encodeArray32 a) = .ok a := by
+/-- Round trip of `array.Array32` through the proto3 wire format (the reading pass). -/
+theorem decodeArray32Into_encode (a : Array32Msg) (hwf : a.WF) (hnf : a.NF) (hsz : (encodeArray32 a).length < 2 ^ 64) :
+    decodeArray32Into {} (encodeArray32 a) = .ok a := by
   obtain ⟨c, bm, of, e, fl, w, be, u⟩ := a
   obtain ⟨hc, hbm, hof, hfl, hw, hbe⟩ := hwf
   simp only at hc hbm hof hfl hw hbe
@@ -79,7 +88,7 @@ theorem decodeArray32_encode (a : Array32Msg) (hwf : a.WF) (hnf : a.NF) (hsz : (
   have lbm := encPackedF_payload_le 2 bm
   have lof := encPackedF_payload_le 3 of
   have le := encBytesF_payload_le 4 e
-  unfold decodeArray32 decodeArray32Into encodeArray32 encodeArray32Known
+  unfold decodeArray32Into encodeArray32 encodeArray32Known
   simp only [List.append_assoc]
   rw [decodeMsg_encVarintF array32H array32U {} { cnt := c } (fno := 1) fnoOK (by omega) _
     (fun _ => by simp [array32H, scalarI32, toInt32_id hc]) (fun h0 => by subst h0; rfl)]
@@ -116,6 +125,17 @@ theorem decodeArray32_encode (a : Array32Msg) (hwf : a.WF) (hnf : a.NF) (hsz : (
   unfold decodeArray32Into at this
   rw [this]
   simp
+
+theorem array32I32OK_of_WF (a : Array32Msg) (h : a.WF) : array32I32OK a = true := by
+  obtain ⟨hc, _, hof, _, hw, hbe⟩ := h
+  simp [array32I32OK, i32ok, hc, hw, all_i32ok _ hof,
+    optOK_of bitsI32OK _ (fun b hb => bitsI32OK_of_WF b (hbe b hb))]
+
+/-- Round trip of `array.Array32` through the proto3 wire format. -/
+theorem decodeArray32_encode (a : Array32Msg) (hwf : a.WF) (hnf : a.NF) (hsz : (encodeArray32 a).length < 2 ^ 64) :
+    decodeArray32 (encodeArray32 a) = .ok a := by
+  unfold decodeArray32
+  rw [decodeArray32Into_encode a hwf hnf hsz, checkI32_ok _ _ (array32I32OK_of_WF a hwf)]
 
 theorem protoSizeArray32_eq (a : Array32Msg) : protoSizeArray32 a = (encodeArray32 a).length := by
   simp only [protoSizeArray32, encodeArray32, encodeArray32Known, List.length_append, encVarintF_length,
